@@ -52,6 +52,7 @@ Step(ev) ==
     [] ev.e = "inv" ->
          LET G(i) == InvOk(ev.m[i], ev.mf[i], ev.xhi[i], ev.xlo[i]) IN
          ChkAll(DOMAIN ev.m, G, "M * inverse(M) is not the identity to 1e-9")
+    [] ev.e = "invthrew" -> Bad("inverse of a strictly diagonally dominant matrix threw")
     [] OTHER -> Bad("no specification action for event " \o ev.e)
 Next == l <= Len(Tr) /\ l' = l + 1 /\ Step(Tr[l])
 Spec == Init /\ [][Next]_l
